@@ -26,6 +26,7 @@ type SrvOpt struct {
 	Debug   int
 	Locked    bool // the implementation serialises its operations with a lock of its own, held until the operation (answer included) returns
 	NoConnOps bool // the implementation has FidDestroy but neither ConnOpened nor ConnClosed (like the library's own Fsrv)
+	ReqHooks  bool // the implementation has SrvReqProcess / SrvReqRespond and builds the final form of some replies in the latter
 }
 
 // fsLocked is a scripted implementation whose every operation runs under one lock of
@@ -52,6 +53,28 @@ func (l fsLocked) Remove(r *go9p.SrvReq) { l.with(l.FS.Remove, r) }
 func (l fsLocked) Stat(r *go9p.SrvReq)   { l.with(l.FS.Stat, r) }
 func (l fsLocked) Wstat(r *go9p.SrvReq)  { l.with(l.FS.Wstat, r) }
 
+// fsReqHooks is a scripted implementation that also looks at every request before it is
+// processed and at every reply before it is sent (SrvReqProcessOps); stat and error
+// replies are packed again there, with the same content (an implementation that
+// redacts or translates replies does this with other content).
+type fsReqHooks struct {
+	*FS
+}
+
+func (h fsReqHooks) SrvReqProcess(r *go9p.SrvReq) { r.Process() }
+func (h fsReqHooks) SrvReqRespond(r *go9p.SrvReq) {
+	if rc := r.Rc; rc != nil {
+		switch rc.Type {
+		case go9p.Rstat:
+			d := rc.Dir
+			go9p.PackRstat(rc, &d, r.Conn.Dotu)
+		case go9p.Rerror:
+			go9p.PackRerror(rc, rc.Error, rc.Errornum, r.Conn.Dotu)
+		}
+	}
+	r.PostProcess()
+}
+
 // fsNoConn shows the framework the request and fid operations of a scripted
 // implementation and nothing else.
 type fsNoConn struct {
@@ -70,6 +93,9 @@ func NewSrvH(fs *FS, o SrvOpt) *SrvH {
 	}
 	if o.Locked {
 		ops = fsLocked{fs, vs.NewSem(1)}
+	}
+	if o.ReqHooks {
+		ops = fsReqHooks{fs}
 	}
 	if !s.Start(ops) {
 		panic("Srv.Start refused the scripted implementation")
